@@ -260,12 +260,13 @@ func checkScalar(c scalarCase) error {
 		return fmt.Errorf("Unmarshal(%q, %v) returned an enum value descriptor", s, k)
 	}
 	if err := sameValue(k, got, c.Bits, c.Str); err != nil {
+		hint := ""
 		if k == protoreflect.FloatKind {
-			if dr, bits := doubleRounded(s); dr && math.Float32bits(float32(got.Float())) == bits && pbt.ExcludeKnown(kfFloat32) {
-				return nil
+			if dr, bits := doubleRounded(s); dr && math.Float32bits(float32(got.Float())) == bits {
+				hint = " (the result of parsing at 64 bits and then narrowing: " + kfFloat32 + " is back)"
 			}
 		}
-		return fmt.Errorf("Unmarshal(Marshal(v)) != v for %v, format %d, text %q: got %v", k, f, s, err)
+		return fmt.Errorf("Unmarshal(Marshal(v)) != v for %v, format %d, text %q: got %v%s", k, f, s, err, hint)
 	}
 	return nil
 }
@@ -496,9 +497,9 @@ func (s *splitmix) next() uint64 {
 }
 
 // float32Range round-trips every pattern produced by at(i), i in [0, n), on all CPUs. It returns the
-// patterns that did not survive and are NOT explained by the known double rounding (bad), and those that
-// are (known). The Descriptor format is used for every pattern, the GoTag format for every eighth.
-func float32Range(n uint64, at func(i uint64) uint32) (bad, known []uint32, goTag int64) {
+// patterns that did not survive (bad). The Descriptor format is used for every pattern, the GoTag
+// format for every eighth.
+func float32Range(n uint64, at func(i uint64) uint32) (bad []uint32, goTag int64) {
 	workers := runtime.NumCPU()
 	var mu sync.Mutex
 	var stop atomic.Bool
@@ -538,7 +539,6 @@ func float32Range(n uint64, at func(i uint64) uint32) (bad, known []uint32, goTa
 						rb, _, rerr := refParse(protoreflect.FloatKind, int(fm), s)
 						ok = rerr == nil && sameBits(protoreflect.FloatKind, rb, uint64(bits))
 					}
-					explained := false
 					if ok {
 						got, _, uerr := defval.Unmarshal(s, protoreflect.FloatKind, nil, fm)
 						if uerr != nil {
@@ -548,20 +548,12 @@ func float32Range(n uint64, at func(i uint64) uint32) (bad, known []uint32, goTa
 						} else {
 							gb = math.Float32bits(g)
 							ok = sameBits(protoreflect.FloatKind, uint64(gb), uint64(bits))
-							if !ok {
-								dr, db := doubleRounded(s)
-								explained = dr && db == gb
-							}
 						}
 					}
 					if !ok {
 						mu.Lock()
-						if explained {
-							known = append(known, bits)
-						} else {
-							bad = append(bad, bits)
-						}
-						if len(bad) > 16 || len(known) > 4096 {
+						bad = append(bad, bits)
+						if len(bad) > 64 {
 							stop.Store(true)
 						}
 						mu.Unlock()
@@ -574,41 +566,28 @@ func float32Range(n uint64, at func(i uint64) uint32) (bad, known []uint32, goTa
 	}
 	wg.Wait()
 	sort.Slice(bad, func(i, j int) bool { return bad[i] < bad[j] })
-	sort.Slice(known, func(i, j int) bool { return known[i] < known[j] })
-	return bad, known, nGoTag.Load()
+	return bad, nGoTag.Load()
 }
 
-func reportFloat32(t *testing.T, sub string, bad, known []uint32) bool {
-	if len(bad) > 0 {
-		c := scalarCase{Kind: int(protoreflect.FloatKind), Format: 1, Bits: uint64(bad[0])}
-		err := checkScalar(c)
-		if err == nil {
-			c.Format = 2
-			err = checkScalar(c)
-		}
-		if err == nil {
-			err = fmt.Errorf("float32 sweep: pattern %#08x failed in the sweep but not in the single check", bad[0])
-		}
-		pbt.ReportViolation(t, "scalar", c, fmt.Errorf("%s: %d patterns fail, first %#08x: %v", sub, len(bad), bad[0], err))
-		return false
+func reportFloat32(t *testing.T, sub string, bad []uint32) bool {
+	if len(bad) == 0 {
+		return true
 	}
-	if len(known) > 0 {
-		hexes := make([]string, 0, len(known))
-		for _, b := range known {
-			hexes = append(hexes, fmt.Sprintf("%#08x", b))
-		}
-		if !pbt.Known(kfFloat32) {
-			c := scalarCase{Kind: int(protoreflect.FloatKind), Format: 1, Bits: uint64(known[0])}
-			pbt.ReportViolation(t, "scalar", c, fmt.Errorf("%s: float32 patterns %v change on the default-value round trip (64-bit parse then narrowing)", sub, hexes))
-			return false
-		}
-		for range known {
-			pbt.S.Exclude(kfFloat32)
-		}
-		prev, _ := pbt.S.Extra["float32_double_rounding_patterns"].([]string)
-		pbt.S.SetExtra("float32_double_rounding_patterns", append(prev, hexes...))
+	hexes := make([]string, 0, len(bad))
+	for _, b := range bad {
+		hexes = append(hexes, fmt.Sprintf("%#08x", b))
 	}
-	return true
+	c := scalarCase{Kind: int(protoreflect.FloatKind), Format: 1, Bits: uint64(bad[0])}
+	err := checkScalar(c)
+	if err == nil {
+		c.Format = 2
+		err = checkScalar(c)
+	}
+	if err == nil {
+		err = fmt.Errorf("pattern %#08x failed in the sweep but not in the single check", bad[0])
+	}
+	pbt.ReportViolation(t, "scalar", c, fmt.Errorf("%s: float32 patterns %v do not survive the default-value round trip; first: %v", sub, hexes, err))
+	return false
 }
 
 func TestFloat32Sweep(t *testing.T) {
@@ -624,8 +603,8 @@ func TestFloat32Sweep(t *testing.T) {
 		if uint64(pbt.Shard) == ns-1 {
 			hi = total
 		}
-		bad, known, tagged := float32Range(hi-lo, func(i uint64) uint32 { return uint32(lo + i) })
-		if !reportFloat32(t, "float32-sweep", bad, known) {
+		bad, tagged := float32Range(hi-lo, func(i uint64) uint32 { return uint32(lo + i) })
+		if !reportFloat32(t, "float32-sweep", bad) {
 			return
 		}
 		pbt.Count("float32-sweep", int64(hi-lo)+tagged, int64(hi-lo), fmt.Sprintf("every float32 bit pattern in [%#08x, %#08x) (this shard; the %d shards cover all 2^32) through defval.Marshal -> {32-bit reference parse, defval.Unmarshal}, Descriptor format for all and GoTag for every eighth; bit-for-bit, all NaNs one class", lo, hi-1, ns),
@@ -637,16 +616,16 @@ func TestFloat32Sweep(t *testing.T) {
 	seed := pbt.DeriveSeed("float32-sample")
 	start := uint32(seed)
 	const stride = 0x9e3779b1
-	bad, known, tagged := float32Range(n, func(i uint64) uint32 { return start + uint32(i)*stride })
-	if !reportFloat32(t, "float32-sample", bad, known) {
+	bad, tagged := float32Range(n, func(i uint64) uint32 { return start + uint32(i)*stride })
+	if !reportFloat32(t, "float32-sample", bad) {
 		return
 	}
 	const win = 1 << 15
 	centres := []uint32{0x15ae43fd, 0x95ae43fd, 0x00800000, 0x7f7fffff, 0x3f800000, 0x4b800000, 0x5f000000}
-	bad2, known2, tagged2 := float32Range(uint64(len(centres))*2*win, func(i uint64) uint32 {
+	bad2, tagged2 := float32Range(uint64(len(centres))*2*win, func(i uint64) uint32 {
 		return centres[i/(2*win)] - win + uint32(i%(2*win))
 	})
-	if !reportFloat32(t, "float32-windows", bad2, known2) {
+	if !reportFloat32(t, "float32-windows", bad2) {
 		return
 	}
 	pbt.Count("float32-sample", int64(n)+tagged+int64(len(centres))*2*win+tagged2, int64(n), "float32 bit patterns start+i*0x9e3779b1 (start from the seed; all distinct) plus +-2^15 windows around 7 boundary patterns incl. the two double-rounding ones; same oracle as the thorough exhaustive sweep",
@@ -714,7 +693,8 @@ func TestBulk64(t *testing.T) {
 	pbt.Count("bulk64", nt.Load(), nt.Load()*3/4, "splitmix stream from the seed: float64 bit patterns (uniform bits / exponent-uniform near 1), int64, negative sint64 and fixed64 values of uniformly drawn bit length, alternating formats; oracle of sub-check scalar; non-trivial (estimate) = >= 8 significant digits", false)
 }
 
-// the fixed witness of the known finding
+// regression witness of KF-float32-double-rounding (fixed in /repo: float32 defaults are parsed at 32 bits).
+// pbt.Witness reports a violation if the two patterns change again while the finding is listed as fixed.
 func TestWitnessFloat32DoubleRounding(t *testing.T) {
 	if pbt.ReplayPath != "" {
 		t.Skip("replay mode")
@@ -1098,24 +1078,12 @@ func checkDesc(c descCase) error {
 	for i, fs := range c.Fields {
 		k := protoreflect.Kind(fs.Kind)
 		def := refFormat(fs, c.Enum)
-		isFloat := k == protoreflect.FloatKind || k == protoreflect.DoubleKind
 		for j, fd := range []protoreflect.FieldDescriptor{fs1[i], fsRaw[i]} {
 			name := [2]string{"protodesc.NewFile", "filedesc.Builder"}[j]
-			// A default written in the shortest form that denotes the value (Style 0; what a correct
-			// Marshal writes) must read back as exactly that value. For the other float spellings
-			// only survival through the descriptor round trip is asserted below.
-			if isFloat && fs.Style != 0 {
-				if !fd.HasDefault() {
-					return fmt.Errorf("%s: field f%d (%v, default_value %q): HasDefault() = false", name, i, k, def)
-				}
-				continue
-			}
+			// Every spelling used by refFormat denotes exactly one value of the kind (shortest form,
+			// shortest with exponent, 9 / 17 significant digits): a correctly rounding reader must
+			// return that value.
 			if err := checkDefault(fd, fs, c.Enum); err != nil {
-				if k == protoreflect.FloatKind {
-					if dr, bits := doubleRounded(def); dr && math.Float32bits(float32(fd.Default().Float())) == bits && pbt.ExcludeKnown(kfFloat32) {
-						continue
-					}
-				}
 				return fmt.Errorf("%s: field f%d (%v, default_value %q): %v", name, i, k, def, err)
 			}
 		}
@@ -1167,11 +1135,6 @@ func checkDesc(c descCase) error {
 		}
 		after := snap(fs2[i])
 		if before != after {
-			if k == protoreflect.FloatKind {
-				if dr, bits := doubleRounded(s2); dr && uint32(after.Bits) == bits && pbt.ExcludeKnown(kfFloat32) {
-					continue
-				}
-			}
 			return fmt.Errorf("default of %s (%v) changed on ToFileDescriptorProto/NewFile: %+v -> text %q -> %+v", name, k, before, s2, after)
 		}
 		if !fs2[i].HasDefault() {
@@ -1196,27 +1159,10 @@ func checkDesc(c descCase) error {
 			continue
 		}
 		if ts != before || !tfd.HasDefault() || tfd.Kind() != k {
-			if k == protoreflect.FloatKind && tfd.HasDefault() {
-				const p = "def="
-				if j := indexOf(tg, p); j >= 0 {
-					if dr, bits := doubleRounded(tg[j+len(p):]); dr && uint32(ts.Bits) == bits && pbt.ExcludeKnown(kfFloat32) {
-						continue
-					}
-				}
-			}
 			return fmt.Errorf("struct tag %q (kind %v): default %+v (has=%v, kind %v), want %+v", tg, k, ts, tfd.HasDefault(), tfd.Kind(), before)
 		}
 	}
 	return nil
-}
-
-func indexOf(s, sub string) int {
-	for i := 0; i+len(sub) <= len(s); i++ {
-		if s[i:i+len(sub)] == sub {
-			return i
-		}
-	}
-	return -1
 }
 
 func isNaNBits(k protoreflect.Kind, b uint64) bool {
